@@ -96,7 +96,7 @@ def perm_queries(be, tier):
         for r in rr:
             qs.append(pq(n, be, 0, r))
         qs.append(pq(n, be, 1, 12))
-        for r in (range(0, 14) if tier == "thorough" else [0, 1, 6, 11, 12]):
+        for r in (range(0, 13) if tier == "thorough" else [0, 1, 6, 11, 12]):     # 13 and above are outside the documented domain (c32 forms a pointer past its table)
             qs.append(pq(n, be, 2, r))
         if tier == "thorough" or n < 4:
             qs.append(pq(n, be, 4, 11))
